@@ -130,9 +130,10 @@ CHECKS = {
             "DTM/NTM verdicts characterised exactly per fuel (accept iff final reached within budget, reject iff all branches stuck); "
             "MNTM BFS: visited configurations reachable, accept only on a reachable final state, reject only when every reachable "
             "configuration was visited and none is final; deterministic table as DTM/NTM/1-tape MNTM gives equal verdicts whenever the "
-            "runs return. Partial: the breadth-first ORDER of MNTM visits (non-decreasing depth) is stated "
-            "(C03_mntm_visits_reachable_statement) but only the reachability/completeness part is proved (..._partial). Model tied to the "
-            "code by exact comparison of traces (state, head-relative non-blank cells), NTM levels as sets, generator endings, "
+            "runs return; the breadth-first ORDER of MNTM visits (C03_mntm_visits_reachable, by the queue invariant 'depth d then depth "
+            "d+1, everything shallower already dequeued'): the dequeued configurations carry non-decreasing depths, each is reachable in "
+            "exactly its depth, and unless fuel ran out everything reachable in fewer moves than the last dequeued one was dequeued. "
+            "Model tied to the code by exact comparison of traces (state, head-relative non-blank cells), NTM levels as sets, generator endings, "
             "accepts_input/read_input under a step budget.",
             "Runs are compared up to the step budget only (halting is not assumed).", "7/C03"),
     "C17": ("Coq theorems about an executable, index-by-index model of MNTM.read_input_as_ntm's extended-tape splicing (after the "
